@@ -135,6 +135,18 @@ func runC09(c *Ctx) {
 	}
 	so := &vc.SolveOpts{TimeoutMs: 2000, RaceTimeout: 6 * time.Second, Models: true}
 	c.Replayer = replayCallFault
+	if !rootAll {
+		// the helpers whose contracts the sweep uses are themselves swept (with their contract clauses) only in the
+		// thorough tier, where the whole root package is in scope
+		c.Covers = func(name string) bool {
+			for _, h := range []string{"slip.NormalizeNumber/", "slip.(*SignedByte).AsFixOrBig/", "slip.(*UnsignedByte).AsFixOrBig/"} {
+				if strings.HasPrefix(name, h) {
+					return false
+				}
+			}
+			return true
+		}
+	}
 	sweep(c, roots, so)
 	// hand-written guard contracts (a callee reached through an interface indexes unchecked: the caller's guard is
 	// the only protection)
